@@ -292,6 +292,32 @@ def run(ctx):
         if len(data) // size > 20000:
             size = 17
         emit({'spec': spec, 'allowed': allowed, 'cuts': sl.fixed(len(data), size)}, 'text-descriptor')
+    # polyglots built from VALID images (real structures behind the first signature) + further signatures overlaid,
+    # in particular MBR tables with real partition entries under an ISO descriptor ("isohybrid" look-alikes)
+    rng5 = ctx.rng('valid-polyglots')
+    for i in range(ctx.pick(400, 12000)):
+        base = rng5.choice(ic.FORMATS)
+        spec = ic.wellformed(rng5, base)
+        if base in ('mbr', 'gpt') or rng5.random() < 0.3:
+            lba = rng5.choice([0, 0, 1, 63, 64, 2048])
+            spec = {'gen': 'mbr', 'params': {'total': 4096, 'ptes': [
+                [rng5.choice([0x80, 0x80, 0x00]), rng5.getrandbits(8), rng5.getrandbits(8), rng5.getrandbits(8),
+                 rng5.choice([0x83, 0x17, 0x0c, 0xcd, 0xee, 0x00]), rng5.getrandbits(8), rng5.getrandbits(8),
+                 rng5.getrandbits(8), lba, rng5.getrandbits(24)]] + [[0] * 10] * 3}}
+        data, _t = ig.build(spec)
+        mut = []
+        if len(data) < 34816 + 64:
+            mut.append(['extend', 34816 + 64 - len(data) + rng5.choice([0, 1, 5000]), rng5.choice([0, 0x41])])
+        others = [n for n in ('iso', 'vdi', 'gpt', 'qcow2', 'vhd', 'luks', 'qed', 'vmdk', 'vhdx')]
+        k = rng5.choice([1, 1, 2])
+        picks = rng5.sample(others, k)
+        if 'iso' not in picks and rng5.random() < 0.5:
+            picks[0] = 'iso'
+        mut += [['sig', n] for n in picks]
+        spec = dict(spec, mut=mut)
+        data, _t = ig.build(spec)
+        emit({'spec': spec, 'allowed': allowed_pool(rng5) if rng5.random() < 0.4 else None,
+              'cuts': cuts_for(rng5, len(data))}, 'valid-image-polyglot')
     # detect_file_format on disk
     rng3 = ctx.rng('detect')
     for i in range(ctx.pick(400, 30000)):
